@@ -16,14 +16,15 @@ class AObj:
     """Abstract heap object: attribute dictionary plus an origin id that survives copy()."""
     _n = 0
 
-    def __init__(self, attrs=None, oid=None, cls=None):
+    def __init__(self, attrs=None, oid=None, cls=None, ftypes=None):
         AObj._n += 1
         self.attrs = dict(attrs or {})
         self.oid = oid if oid is not None else 'o%d' % AObj._n
         self.cls = cls
+        self.ftypes = ftypes      # typed evaluation: field name -> (bits, signed); stores wrap to the field's width
 
     def copy(self):
-        return AObj(self.attrs, self.oid, self.cls)
+        return AObj(self.attrs, self.oid, self.cls, self.ftypes)
 
     def __repr__(self):
         return '<%s %r>' % (self.oid, self.attrs)
@@ -51,6 +52,7 @@ class CxxModule:
         from types import SimpleNamespace
         self.funcs = {}
         self.overloads = {}
+        self.lib = lib            # constants of the library are folded through it
         for q in list(lib.funcs):
             if not q.startswith(tuple(prefixes)):
                 continue
@@ -262,6 +264,8 @@ class AEval:
             o = self.ev(tgt.a[0], env, depth)
             if not isinstance(o, AObj):
                 raise AnalysisError('abstract evaluation: attribute store on %r at %s' % (o, tgt.loc))
+            if self.typed and getattr(o, 'ftypes', None):
+                v = self._wrap(v, o.ftypes.get(tgt.a[1]))
             o.attrs[tgt.a[1]] = v
         elif tgt.k == 'index':
             o = self.ev(tgt.a[0], env, depth)
@@ -339,6 +343,11 @@ class AEval:
                 return v
             if a[0] in ('True', 'False', 'None'):
                 return {'True': True, 'False': False, 'None': None}[a[0]]
+            lib = getattr(self.module, 'lib', None)
+            if lib is not None:
+                v = lib.global_value(a[0])
+                if v is not None:
+                    return v
             raise AnalysisError('abstract evaluation: unbound name %s at %s' % (a[0], e.loc))
         if k == 'this':
             return env['self']
